@@ -5,10 +5,17 @@
    is a TableConflict whose state index is a state of m, whose two items belong to that state,
    and the two items demand different parser actions on the same lookahead (terminal or end of
    input); the attached file and machine are f and m.
-   NOT proved: C11_machine_is_LALR (m is the grammar's LALR(1) automaton: builder exactness, C17);
-   decided per grammar by the check's brute-force LALR(1) reference. *)
+   AND the machine in question — the one the generator builds for the validated file and attaches
+   to the error — is the LALR(1) automaton in this sense (C11_machine_is_the_lalr_automaton): its
+   states are closed item sets with pairwise distinct LR(0) cores, its transitions are deterministic
+   and complete with targets having the core of the advanced kernel's closure (MInv), and every
+   item of every state is derivable from the start item by the closure rule and transitions: the
+   lookahead sets are the least ones.  So a reported conflict is a conflict of that automaton.
+   NOT proved: equivalence of this characterisation with the textbook merge of canonical LR(1)
+   states; decided per grammar by the check's brute-force LALR(1) reference. *)
 From Coq Require Import List.
-From Kiki Require Import Base.Ord Base.Chars Data Build.Machine Build.Table Build.TableProofs.
+From Coq Require Import Permutation.
+From Kiki Require Import Base.Ord Base.Chars Data Build.Machine Build.Table Build.TableProofs Build.ClosureProofs Build.MachineSpec Build.DerProofs Build.GenCorrect.
 
 Theorem C11_conflict_is_genuine : forall m f ho e,
   machine_to_table ho m f = Err e ->
@@ -19,4 +26,13 @@ Theorem C11_conflict_is_genuine : forall m f ho e,
                             demands m f (cf_state c) (cf_item2 c) q a2 /\ a1 <> a2.
 Proof. exact conflict_is_genuine. Qed.
 
+Theorem C11_machine_is_the_lalr_automaton : forall hot fu v m,
+  (forall l, Permutation (hot l) l) -> validated_ast_to_machine hot fu v = Ok m ->
+  exists cx, cx_rules cx = get_rules v /\ cx_start cx = vf_start v /\
+             MInv cx m /\
+             (forall k st it, nth_error (m_states m) k = Some st -> In it st -> Der cx (m_transitions m) (m_start m) k it) /\
+             (forall i j si sj, nth_error (m_states m) i = Some si -> nth_error (m_states m) j = Some sj -> same_cores si sj -> i = j).
+Proof. exact machine_is_the_lalr_automaton. Qed.
+
 Print Assumptions C11_conflict_is_genuine.
+Print Assumptions C11_machine_is_the_lalr_automaton.
